@@ -266,6 +266,17 @@ def act_old_format_metadata(data="data"):
     return run
 
 
+def act_with_pid(action, pid):
+    """The same action in a process that reports the process id `pid` (containers and fresh pid namespaces hand out the same
+    small ids run after run: a killed process and the one that comes after it may well share one)."""
+    def run(root):
+        os.getpid = lambda: pid
+        return action(root)
+
+    run.__name__ = action.__name__ + "@pid%d" % pid
+    return run
+
+
 def act_age_metadata(days=3, data="data"):
     """Makes every blob look `days` days old (the timestamp recorded in its metadata is moved back)."""
     def run(root):
